@@ -481,6 +481,11 @@ func (cs *Contracts) parseFile(path string) error {
 				return fail("%v", err)
 			}
 			ss.Clause = &Clause{Kind: "site", Text: arg, E: e, N: len(cur.Sites) + 1, Label: label}
+			if l, ps, ok := strings.Cut(label, ":"); ok {
+				// at[name:C01,C03]: this site obligation serves only the listed properties
+				ss.Clause.Label = l
+				ss.Clause.Props = strings.Split(ps, ",")
+			}
 			cur.Sites = append(cur.Sites, ss)
 		case "invariant":
 			// invariant Node as inv(sn): expr   |  (continuation lines add clauses with 'invariant' again)
